@@ -31,7 +31,7 @@ func ruleC16(c *Check, p *Prog) {
 		"R-PQ-NORMAL for the two-sided tests (monobit bit/byte, runs, binary derivative, autocorrelation, Maurer, DFT) P = erfc(|v|) and Q = erfc(v)/2 over the SAME v, whence P = 2 min(Q, 1-Q) identically; " +
 		"R-PASS in each of the 15 registry runners Pass is (P >= Alpha) on the value stored in P (min(P,P2) for the overlapping test), Alpha = 0.01. " +
 		"R-PRECOND none of the explicit input-validation panics of the 17 test entry points fires for a length >= the standard's minimum (and the test's own) with the documented parameters (a test that refuses an admissible sequence returns nothing). " +
-		"R-VALUE-IDENT every test function is the reference computation of C01-C05 (their R-EQUIV obligations re-asserted; a wrong regime border that leaves no block, a short-circuited normal CDF, an integer overflow are differences from it). R-IGAMC-IDENT igamc/igam are the Cephes recurrences (C06's obligation re-asserted: clamps, underflow cut, no state kept between calls). R-FINITE-GUARDS the finiteness guards of igamc (clamp, underflow cut, qk != 0, rescaling of the continued-fraction state) are present. " +
+		"R-VALUE-IDENT every test function is the reference computation of C01-C05 (their R-EQUIV obligations re-asserted; a wrong regime border that leaves no block, a short-circuited normal CDF, an integer overflow are differences from it). R-STATELESS no function of the library stores into package-level memory (a memo of the last shape in the tail function hands one goroutine another's value: P outside [0,1]); the accuracy of igamc itself is C06, not re-asserted here. R-FINITE-GUARDS the finiteness guards of igamc (clamp, underflow cut, qk != 0, rescaling of the continued-fraction state) are present. " +
 		"NOT decided: finiteness, absence of NaN and the range [0,1] in general (runtime values: 0/0 in the runs test for constant input, logs of counts, differences of near-equal sums)."
 	c.Floor("R-QP-CHI", 10)
 	c.Floor("R-PQ-NORMAL", 7)
@@ -41,12 +41,9 @@ func ruleC16(c *Check, p *Prog) {
 	for _, pr := range []string{"C01", "C02", "C03", "C04", "C05"} {
 		checkPreconds(c, p, pr)
 	}
-	// the tail function every chi-square P/Q goes through (anchored in C16: clamp to 1 for x <= 0, 0 on underflow): identity
-	// with the Cephes recurrences, which also pins that it keeps no state between calls (a memo of the last shape is a
-	// load/store of package-level memory that the reference does not have)
-	for _, sp := range c06Specs[:2] {
-		checkEquiv(c, p, "R-IGAMC-IDENT", sp.Key, sp.Spec, sp.What)
-	}
+	// the tail function every chi-square P/Q goes through keeps no state between calls (a memo of the last shape is a store into
+	// package-level memory); its clamps and guards are R-FINITE-GUARDS below, its accuracy is C06 and is NOT re-asserted here
+	checkStateless(c, p)
 	// finiteness and range are properties of VALUES; what is visible in the code's shape is that each test IS the reference
 	// computation (C01-C05's obligations re-asserted), whose values are the standard's well-formed P and Q: a regime table with a
 	// wrong border (N = 0 blocks, 0/0), a short-circuited normal CDF (P > 1) are differences from the reference
